@@ -303,4 +303,23 @@ example : ∀ it ∈ [demoIt], ¬ rejected (1 / 10 : ℝ) 100 it := by
   rw [show demoIt.dist0 = (1 : ℝ) from rfl, show demoIt.coll0 = false from rfl]
   norm_num
 
+/-- with non-negative link distances (any metric-like distance callback) a node never costs less than its parent … -/
+theorem cost_ge_parent (tree : List N) (h : TreeInv tree) (i : Nat) (n : N) (hn : tree[i]? = some n) (hi : 0 < i)
+    (he : 0 ≤ n.edge) : ∃ p, n.parent = some p ∧ costOf tree p ≤ costOf tree i := by
+  obtain ⟨p, hp, _, hc⟩ := h.2 i n hn hi
+  refine ⟨p, hp, ?_⟩
+  have : costOf tree i = n.cost := by unfold costOf; rw [hn]; rfl
+  rw [this, hc]; linarith
+
+/-- … and every stored cost of the generated tree is non-negative (it is a sum of link distances) -/
+theorem generated_cost_nonneg (its : List (Iter ℝ)) (dmin dmax : ℝ) (hwf : WFTrace [root] its)
+    (hacc : ∀ it ∈ its, ¬ rejected dmin dmax it) (he : ∀ j, 0 ≤ edgeOf (generate its) j)
+    (i : Nat) (hi : i < (generate its).length) : 0 ≤ costOf (generate its) i := by
+  rw [generated_cost_is_path_length its dmin dmax hwf hacc i hi]
+  apply List.sum_nonneg
+  intro x hx
+  rw [List.mem_map] at hx
+  obtain ⟨j, _, rfl⟩ := hx
+  exact he j
+
 end BR.C16
